@@ -60,7 +60,11 @@ func ruleGroupingKey(c *Ctx, norm, uuid *ssa.Function) {
 	}
 	// the map key in Normalize is PhysicalUUID of the element being appended
 	n := 0
-	for _, b := range norm.Blocks {
+	var gkBlocks []*ssa.BasicBlock
+	for _, h := range normHosts(c, norm, uuid) {
+		gkBlocks = append(gkBlocks, h.Blocks...)
+	}
+	for _, b := range gkBlocks {
 		for _, in := range b.Instrs {
 			mu, ok := in.(*ssa.MapUpdate)
 			if !ok {
@@ -86,6 +90,52 @@ func ruleGroupingKey(c *Ctx, norm, uuid *ssa.Function) {
 	if n == 0 {
 		c.Undec("R20.1", "input.Normalize/collection-key", c.P.Pos(norm.Pos()), "no map keyed by PhysicalID is filled in Normalize")
 	}
+}
+
+// normHosts: Normalize and the functions of package input it calls that work on its behalf (a grouping stage, a stage that
+// builds the handlers): not the classifiers and not the grouping identifier, which have rules of their own.
+func normHosts(c *Ctx, norm *ssa.Function, not ...*ssa.Function) []*ssa.Function {
+	out := []*ssa.Function{norm}
+	skip := map[*ssa.Function]bool{norm: true}
+	for _, f := range not {
+		skip[f] = true
+	}
+	for _, b := range norm.Blocks {
+		for _, in := range b.Instrs {
+			ci, ok := in.(ssa.CallInstruction)
+			if !ok {
+				continue
+			}
+			callee := ci.Common().StaticCallee()
+			if callee == nil || skip[callee] || len(callee.Blocks) == 0 || funcPkgPath(callee) != pkgInput || callee.Signature.Recv() != nil {
+				continue
+			}
+			if sites, all := staticCallSites(c.P, callee); !all || len(sites) != 1 {
+				continue // shared with other code: not a stage of Normalize
+			}
+			skip[callee] = true
+			out = append(out, callee)
+		}
+	}
+	return out
+}
+
+// passedParam: host is Normalize itself, or a stage whose ranged parameter is, at its only call site, a parameter of Normalize.
+func passedParam(c *Ctx, norm, host *ssa.Function, col ssa.Value) bool {
+	prm, ok := col.(*ssa.Parameter)
+	if !ok {
+		return false
+	}
+	if host == norm {
+		return true
+	}
+	sites, all := staticCallSites(c.P, host)
+	idx := paramIndex(prm)
+	if !all || len(sites) != 1 || idx < 0 || idx >= len(sites[0].Common().Args) {
+		return false
+	}
+	_, isParam := sites[0].Common().Args[idx].(*ssa.Parameter)
+	return isParam && sites[0].Parent() == norm
 }
 
 // loopOf returns the header of the innermost loop containing b (nil if none) and its latches.
@@ -166,7 +216,11 @@ func ruleEveryHandlerOnce(c *Ctx, norm, ddt *ssa.Function) {
 	pos := c.P.Pos(norm.Pos())
 	// (a) collection[key] = append(collection[key], di) on every iteration over the input parameter
 	okCollect := false
-	for _, b := range norm.Blocks {
+	var hostBlocks []*ssa.BasicBlock
+	for _, h := range normHosts(c, norm, ddt) {
+		hostBlocks = append(hostBlocks, h.Blocks...)
+	}
+	for _, b := range hostBlocks {
 		for _, in := range b.Instrs {
 			mu, ok := in.(*ssa.MapUpdate)
 			if !ok {
@@ -180,7 +234,7 @@ func ruleEveryHandlerOnce(c *Ctx, norm, ddt *ssa.Function) {
 				continue
 			}
 			key := "input.Normalize/collect-every-handler"
-			every, h := onEveryIteration(norm, mu)
+			every, h := onEveryIteration(b.Parent(), mu)
 			app, isApp := mu.Value.(*ssa.Call)
 			isAppend := false
 			if isApp {
@@ -193,7 +247,7 @@ func ruleEveryHandlerOnce(c *Ctx, norm, ddt *ssa.Function) {
 			overParam := false
 			if h != nil {
 				if col := rangedCollection(h); col != nil {
-					_, overParam = col.(*ssa.Parameter)
+					overParam = passedParam(c, norm, b.Parent(), col)
 				}
 			}
 			switch {
@@ -215,7 +269,7 @@ func ruleEveryHandlerOnce(c *Ctx, norm, ddt *ssa.Function) {
 	// (b) appends to dev.Handlers, to the type-decision list, and to the result
 	var handlersApp, typeListApp, resultApp *ssa.Call
 	var ddtCall *ssa.Call
-	for _, b := range norm.Blocks {
+	for _, b := range hostBlocks {
 		for _, in := range b.Instrs {
 			call, ok := in.(*ssa.Call)
 			if !ok {
@@ -256,7 +310,7 @@ func ruleEveryHandlerOnce(c *Ctx, norm, ddt *ssa.Function) {
 			c.Bad(rule, key, pos, "no append found for "+what)
 			return
 		}
-		every, h := onEveryIteration(norm, app)
+		every, h := onEveryIteration(app.Parent(), app)
 		if !every || h == nil {
 			c.Bad(rule, key, c.P.Pos(app.Pos()), what+": some iterations skip the append (a handler whose device cannot be opened, a filter, ...)")
 			return
@@ -265,6 +319,13 @@ func ruleEveryHandlerOnce(c *Ctx, norm, ddt *ssa.Function) {
 		isMap := false
 		if col != nil {
 			_, isMap = col.Type().Underlying().(*types.Map)
+			// a stage function ranging over the group it was handed: the group must be what Normalize passes
+			if prm, isPrm := col.(*ssa.Parameter); isPrm && app.Parent() != norm && !wantMapLoop {
+				if sites, all := staticCallSites(c.P, app.Parent()); !all || len(sites) != 1 || paramIndex(prm) >= len(sites[0].Common().Args) || !(isGroupValue(sites[0].Common().Args[paramIndex(prm)]) || isGroupCopy(sites[0].Common().Args[paramIndex(prm)])) {
+					c.Bad(rule, key, c.P.Pos(app.Pos()), what+": built by a helper that is not handed the group of the location itself")
+					return
+				}
+			}
 		}
 		if wantMapLoop != isMap {
 			c.Bad(rule, key, c.P.Pos(app.Pos()), what+": appended in the wrong loop")
